@@ -317,38 +317,55 @@ pub fn pinned() -> Vec<(usize, u64)> {
     v
 }
 
-pub fn check(tier: Tier, seed: u64) -> i32 {
-    let mut rep = Report::new(PROP, tier, seed);
-    let w = report::workers();
+pub struct Ctx {
+    pub pins: Vec<(usize, u64)>,
+    pub n512: u64,
+    pub n1024: u64,
+}
+
+pub fn context(tier: Tier, _seed: u64) -> Result<Ctx, String> {
     let (n512, n1024) = match tier {
         Tier::Quick => (640u64, 112u64),
         Tier::Thorough => (24000u64, 4000u64),
     };
-    let pins = pinned();
-    let npin = pins.len() as u64;
-    let total = npin + n512 + n1024;
-    let out = report::parallel_runs(total, w, |run| {
-        let mut rng = Prng::new(report::run_seed(seed, PROP, run));
-        let plan = if run < npin {
-            let (n, c) = pins[run as usize];
-            Plan::draw(&mut rng, n, counter_seed(c))
-        } else {
-            // fresh seeds; the expensive 1024 life-cycles are scheduled first
-            let k = run - npin;
-            let n = if k < n1024 { 1024 } else { 512 };
-            let ks = rng.seed32();
-            Plan::draw(&mut rng, n, ks)
-        };
-        let mut o = run_plan(&plan, run, true);
-        o.stats.inc(&format!("variant.{}", plan.n));
-        if run < npin {
-            o.stats.inc("pinned_seeds");
-        }
-        if run == npin || run == npin + n1024 {
-            o.stats.sample(plan.to_json());
-        }
-        o
-    });
+    Ok(Ctx { pins: pinned(), n512, n1024 })
+}
+
+fn dispatch(ctx: &Ctx, seed: u64, run: u64) -> RunOutcome {
+    let npin = ctx.pins.len() as u64;
+    let mut rng = Prng::new(report::run_seed(seed, PROP, run));
+    let plan = if run < npin {
+        let (n, c) = ctx.pins[run as usize];
+        Plan::draw(&mut rng, n, counter_seed(c))
+    } else {
+        // fresh seeds; the expensive 1024 life-cycles are scheduled first
+        let k = run - npin;
+        let n = if k < ctx.n1024 { 1024 } else { 512 };
+        let ks = rng.seed32();
+        Plan::draw(&mut rng, n, ks)
+    };
+    let mut o = run_plan(&plan, run, true);
+    o.stats.inc(&format!("variant.{}", plan.n));
+    if run < npin {
+        o.stats.inc("pinned_seeds");
+    }
+    if run == npin || run == npin + ctx.n1024 {
+        o.stats.sample(plan.to_json());
+    }
+    o
+}
+
+pub fn rerun(tier: Tier, seed: u64, run: u64) -> Option<RunOutcome> {
+    let ctx = context(tier, seed).ok()?;
+    Some(dispatch(&ctx, seed, run))
+}
+
+pub fn check(tier: Tier, seed: u64) -> i32 {
+    let mut rep = Report::new(PROP, tier, seed);
+    let w = report::workers();
+    let ctx = context(tier, seed).unwrap();
+    let total = ctx.pins.len() as u64 + ctx.n512 + ctx.n1024;
+    let out = report::parallel_runs(total, w, |run| dispatch(&ctx, seed, run));
     rep.absorb(out);
     rep.rule = "a case is one signer-node life-cycle for one key seed: keygen, publish pk bytes, persist sk bytes, then a seeded sequence of sign operations (some with buggify-forced retries) and 1-3 crashes; after a crash the node restarts from the bytes on the simulated disk only, and the verifier keeps the public-key bytes published before the first crash; all life-cycles are non-trivial (each restarts at least once and signs after the last restart); distinct = distinct (variant, key seed)".into();
     rep.assumptions = vec![
